@@ -898,6 +898,56 @@ func main() {
 		rep.Consts = append(rep.Consts, "rb_shape")
 	}
 
+	// tlfu.go, climb(): the test that re-energises the hill climber - on the absolute value of the change? against which threshold?
+	if fd := findFunc(internal, "climb"); fd != nil && fd.Body != nil {
+		found := false
+		ast.Inspect(fd.Body, func(m ast.Node) bool {
+			ifs, ok := m.(*ast.IfStmt)
+			if !ok || found {
+				return true
+			}
+			mentions := false
+			ast.Inspect(ifs.Body, func(k ast.Node) bool {
+				if id, ok := k.(*ast.Ident); ok && id.Name == "nextStepSizeAbs" {
+					mentions = true
+				}
+				return true
+			})
+			be, ok := ifs.Cond.(*ast.BinaryExpr)
+			if !mentions || !ok || be.Op != token.GEQ {
+				return true
+			}
+			abs, okx := false, false
+			switch x := be.X.(type) {
+			case *ast.Ident:
+				okx = x.Name == "delta"
+			case *ast.CallExpr:
+				if exprString(x.Fun) == "math.Abs" && len(x.Args) == 1 {
+					if conv, ok := x.Args[0].(*ast.CallExpr); ok && exprString(conv.Fun) == "float64" && len(conv.Args) == 1 && exprString(conv.Args[0]) == "delta" {
+						abs, okx = true, true
+					}
+				}
+			}
+			v, okc := evalConst(be.Y, consts)
+			if !okx || !okc {
+				return true
+			}
+			num, den, okr := ratOf(v)
+			if !okr {
+				return true
+			}
+			found = true
+			fmt.Fprintf(&cb, "(* tlfu.go, climb(): the step is reset to its full size when |change of the hit ratio| (true) / the change (false) >= num/den *)\nDefinition c_climb_restart : bool * Z * Z := (%v, %s, %s).\n", abs, num, den)
+			rep.Consts = append(rep.Consts, "climb_restart")
+			return false
+		})
+		if !found {
+			fail("climb(): restart test not recognised")
+		}
+	} else {
+		fail("TinyLfu.climb not found")
+	}
+
 	// store.go, Store.Close: the loop over the shards comes first, nothing in Close can leave before its end, every shard is closed under its own lock
 	{
 		var fdc *ast.FuncDecl
